@@ -45,7 +45,7 @@ mod verif_sem {
     use super::*;
     use crate::runtime::execution::verif_exec::{new_store, run_in, state_with, task_state, use_store, SpecSched};
     use crate::runtime::task::TaskState;
-    use crate::verif_support::{fixed_random_state, stub_false, switches, verif_switch};
+    use crate::verif_support::{fixed_random_state, stub_false, switches, verif_switch, ENV};
     use std::rc::Rc;
 
     const BLOCKED: TaskState = TaskState::Blocked { allow_spurious_wakeups: false };
@@ -425,17 +425,18 @@ mod verif_sem {
         std::mem::forget(sem);
     }
 
-    /// C18.acquire.poll_first [Kb]: first poll of a fresh acquisition, queue empty: enough permits => Ready(Ok), exactly n
-    /// removed, one choice point before; not enough => Pending, enqueued at the tail with the poller's identity and waker;
-    /// the choice point is skipped only for an unfair semaphore (blocking commutes).
+    /// C18.acquire.poll_first_* [Kb: four concrete configurations; a symbolic configuration exhausts memory]: first poll of a
+    /// fresh acquisition, queue empty: enough permits => Ready(Ok), exactly n removed, one choice point before; not enough
+    /// => Pending, enqueued at the tail with the poller's identity and waker; the choice point is skipped only for an
+    /// unfair semaphore (blocking commutes).
     #[kani::proof]
     #[kani::solver(minisat)]
     #[kani::unwind(5)]
     #[kani::stub(crate::runtime::thread::continuation::switch, verif_switch)]
     #[kani::stub(std::hash::RandomState::new, fixed_random_state)]
     #[kani::stub(crate::backtrace_enabled, stub_false)]
-    fn c18_acquire_poll_first_fair() {
-        poll_first_contract(Fairness::StrictlyFair);
+    fn c18_acquire_poll_first_fair_blocks() {
+        poll_first_contract(Fairness::StrictlyFair, 0, 1);
     }
 
     #[kani::proof]
@@ -444,18 +445,76 @@ mod verif_sem {
     #[kani::stub(crate::runtime::thread::continuation::switch, verif_switch)]
     #[kani::stub(std::hash::RandomState::new, fixed_random_state)]
     #[kani::stub(crate::backtrace_enabled, stub_false)]
-    fn c18_acquire_poll_first_unfair() {
-        poll_first_contract(Fairness::Unfair);
+    fn c18_acquire_poll_first_unfair_blocks() {
+        poll_first_contract(Fairness::Unfair, 1, 2);
     }
 
-    fn poll_first_contract(fairness: Fairness) {
+    #[kani::proof]
+    #[kani::solver(minisat)]
+    #[kani::unwind(5)]
+    #[kani::stub(crate::runtime::thread::continuation::switch, verif_switch)]
+    #[kani::stub(std::hash::RandomState::new, fixed_random_state)]
+    #[kani::stub(crate::backtrace_enabled, stub_false)]
+    fn c18_acquire_poll_first_fair_succeeds() {
+        poll_first_contract(Fairness::StrictlyFair, 1, 1);
+    }
+
+    #[kani::proof]
+    #[kani::solver(minisat)]
+    #[kani::unwind(5)]
+    #[kani::stub(crate::runtime::thread::continuation::switch, verif_switch)]
+    #[kani::stub(std::hash::RandomState::new, fixed_random_state)]
+    #[kani::stub(crate::backtrace_enabled, stub_false)]
+    fn c18_acquire_poll_first_unfair_succeeds() {
+        poll_first_contract(Fairness::Unfair, 2, 1);
+    }
+
+    /// C02.acquire.first_poll_fair_blocking_is_choice_point [Kb, one concrete configuration: 0 permits, request 1, empty
+    /// queue]: joining the ORDERED queue of a strictly fair semaphore does not commute with another task joining it (the
+    /// queue order decides who is granted first), so the first poll takes exactly one choice point BEFORE it enqueues,
+    /// also when the queue is still empty.
+    #[kani::proof]
+    #[kani::solver(minisat)]
+    #[kani::unwind(5)]
+    #[kani::stub(crate::runtime::thread::continuation::switch, verif_switch)]
+    #[kani::stub(std::hash::RandomState::new, fixed_random_state)]
+    #[kani::stub(crate::backtrace_enabled, stub_false)]
+    fn c02_acquire_first_poll_fair_blocking() {
         let mut store = new_store();
         use_store(&mut store);
         let sched = Rc::new(RefCell::new(SpecSched::new()));
         let st = state_with([TaskState::Runnable, BLOCKED, BLOCKED], 0, sched);
-        let a: usize = kani::any();
-        let n: usize = kani::any();
-        kani::assume(a <= 1 && n >= 1 && n <= 2);
+        let sem = mk_sem(0, Fairness::StrictlyFair, false);
+        let w = mk_waiter(0, 1, false, false);
+        let mut acq = mk_acquire(&sem, &w, true);
+        let waker = crate::runtime::task::waker::make_waker(TaskId::from(0));
+        let mut cx = Context::from_waker(&waker);
+        unsafe {
+            SEM_OBS = &sem;
+            ENV = Some(env_queue_still_empty);
+        }
+        let (r, _cell) = run_in(st, || Pin::new(&mut acq).poll(&mut cx));
+        assert!(matches!(r, Poll::Pending));
+        assert!(switches() == 1);
+        assert!(unsafe { QUEUE_EMPTY_AT_SWITCH });
+        assert!(sem.verif_waiters() == 1 && w.is_queued.load(Ordering::SeqCst));
+        kani::cover!(true);
+        std::mem::forget(acq);
+        std::mem::forget(sem);
+    }
+    static mut SEM_OBS: *const BatchSemaphore = std::ptr::null();
+    static mut QUEUE_EMPTY_AT_SWITCH: bool = false;
+    fn env_queue_still_empty() {
+        unsafe {
+            QUEUE_EMPTY_AT_SWITCH = (*SEM_OBS).verif_waiters() == 0;
+        }
+    }
+
+    fn poll_first_contract(fairness: Fairness, a: usize, n: usize) {
+        let mut store = new_store();
+        use_store(&mut store);
+        let sched = Rc::new(RefCell::new(SpecSched::new()));
+        let st = state_with([TaskState::Runnable, BLOCKED, BLOCKED], 0, sched);
         let sem = mk_sem(a, fairness, false);
         // created by ANOTHER task (2): the waiter must follow whoever polls it
         let w = mk_waiter(2, n, false, false);
@@ -476,8 +535,7 @@ mod verif_sem {
             assert!(w.waker.lock().unwrap().is_some());
             assert!(switches() == if fairness == Fairness::StrictlyFair { 1 } else { 0 });
         }
-        kani::cover!(n <= a);
-        kani::cover!(n > a);
+        kani::cover!(true);
         std::mem::forget(acq);
         std::mem::forget(sem);
     }
